@@ -263,7 +263,8 @@ def rule_layout_emission(rep, idx):
                 allitems = items + [end]
                 for i, d in enumerate(items):
                     ev = per[i]
-                    own = (ev[-1] if ev else 0) if _is_data(d) else sum(ev)
+                    # a DATA word is the last four bytes written for the directive (one write or byte by byte); what precedes is padding
+                    own = (min(4, sum(ev)) if ev else 0) if _is_data(d) else sum(ev)
                     padb = sum(ev) - own
                     if own > 0:
                         if lay[i] != cum + padb:
